@@ -404,14 +404,14 @@ class Engine:
             self.st.glob.append(f)
 
     # ----------------------------------------------------------------- obligations
-    def oblige(self, label, kind, goal, props=(), text="", needs=None, own=None):
+    def oblige(self, label, kind, goal, props=(), text="", needs=None, own=None, nosplit=False):
         if self.spec_depth and kind == "safety":
             return
         g = z3.simplify(goal)
         name = "%s::%s" % (self.cur_func, label)
         if not z3.is_true(g):
             where = header_text(self.cur_stmt) if self.cur_stmt is not None else ""
-            parts = split_goal(goal)
+            parts = [goal] if nosplit else split_goal(goal)
             if len(parts) > 12:
                 parts = [goal]
             pc = self.st.pc
